@@ -115,7 +115,11 @@ def run(spec, env):
         i = env.rec("shutdown")
         env.hit("shutdown-begin")
         kw = {} if spec.get("cancel_futures") is None else {"cancel_futures": spec["cancel_futures"]}
-        ex.shutdown(spec["wait"], **kw)
+        try:
+            ex.shutdown(spec["wait"], **kw)
+        except Exception as exc:      # shutdown() has no business raising: judged by the oracle, not a harness error
+            env.rec("shutdown-raised", i, type(exc).__name__)
+            return
         env.rec("shutdown-ret", i)
         if spec.get("again") is not None:
             if spec.get("again_at"):
@@ -142,6 +146,12 @@ def check(spec, env):
         return []
     log = sim.log
     out = []
+    for e in log:
+        if e[3] == "shutdown-raised":
+            out.append({"oracle": "shutdown-raised", "sig": "shutdown-raised|%s" % e[5],
+                        "msg": "shutdown() raised %s instead of cancelling the accepted futures and shutting the wrapped executor down" % e[5]})
+    if out:
+        return out
     sd = [e for e in log if e[3] == "shutdown"]
     sr = [e for e in log if e[3] == "shutdown-ret"]
     if not sd or not sr:
